@@ -25,9 +25,9 @@ EXPLANATION = (
     "with the same ActionManager.form_request that execution uses and stores check_valid's verdict at the entry's own "
     "index; PrimaiteGymEnv.action_masks delegates to it; R11.4 each of the validator classes computes the documented "
     "predicate (node ON / OFF, software state equals the required state, interface enabled / disabled, file/folder "
-    "found, found and not deleted, conjunction of parts) as a truth table over its inputs; R11.3 (cross-reference, "
-    "informational) the documented mask logic of docs/source/action_masking.rst vs the validator chain on each "
-    "action's static route; R11.5 the mask is a function of the state the action will meet: check_valid stores nothing "
+    "found, found and not deleted, conjunction of parts) as a truth table over its inputs; R11.3 every permission "
+    "condition that docs/source/action_masking.rst documents for an action is a validator on the action's static route "
+    "(the documented-but-unenforced conditions of the pinned tree are frozen with their reasons); R11.5 the mask is a function of the state the action will meet: check_valid stores nothing "
     "and calls no mutator (no verdict memo), action_mask writes only mask entries, every simulator pre_timestep (which "
     "runs between mask and action) and its helpers store no attribute a permission rule reads and call no life-cycle "
     "operation, and PrimaiteGymEnv.step applies the actions before advancing time; R11.6 no sub-tree is registered through a forwarding "
